@@ -732,6 +732,7 @@ def _edit_unitary_complement(src: str) -> str:
 
 
 KNOCKOUTS = [
+    Knockout("reset-depth-penalty-per-emitter", METRICS, lambda src: sub_once("        depth = max(reset_depths.values())\n        val = self.depth_penalty(depth)\n", "        val = max(reset_depths.values())\n")(sub_once("            reset_depths[e_i] = max(reset_intervals)\n", "            reset_depths[e_i] = self.depth_penalty(max(reset_intervals))\n")(src)), "metric.source", "per emitter"),
     Knockout("reg-depth-from-sorted-output-nodes", DAG, sub_once("        for i in range(len(self._register_depth[reg_type])):\n            output_node = f\"{reg_type}{i}_out\"\n            self._register_depth[reg_type][i] = self._max_depth(output_node)\n", "        output_nodes = sorted(n for n in self.node_dict.get(\"Output\", []) if self.dag.nodes[n][\"op\"].reg_type == reg_type)\n        self._register_depth[reg_type] = [self._max_depth(n) for n in output_nodes]\n"), "depth.index-aligned", "rebuilt"),
     Knockout("unitary-count-by-complement", METRICS, _edit_unitary_complement, "table.labels", "complement query"),
     Knockout("flatten-helper-returns-early", METRICS, _edit_flatten_helper, "metric.source", "returns early"),
